@@ -709,4 +709,41 @@ theorem swap_self_perm (s : PedState) (p ip iq : ℕ) (hp : p < s.length)
   · intro i hi
     simp [List.getD_eq_getElem?_getD, List.getElem?_set_ne (Ne.symm hi)]
 
+theorem countsOf_perm (n : ℕ) {a b : List ℕ} (h : a.Perm b) : countsOf n a = countsOf n b := by
+  unfold countsOf
+  apply List.map_congr_left
+  intro x _
+  exact h.count_eq x
+
+/-- **the joint is a function of the unordered genotypes**: permuting the alleles inside any rows of
+    the stored state changes neither a read likelihood nor an inheritance term -/
+theorem jointWith_perm (f : Trio → ℚ) (P : Ped) (s s' : PedState)
+    (h : ∀ i, (s'.getD i []).Perm (s.getD i [])) : jointWith f P s' = jointWith f P s := by
+  unfold jointWith
+  congr 1
+  apply List.map_congr_left
+  intro i _
+  have hl : likOf P s' i = likOf P s i := by
+    unfold likOf
+    rw [C04.likAllelesPedigree_eq, C04.likAllelesPedigree_eq]
+    exact C04.likAlleles_perm _ _ _ (h i)
+  have ht : trioOf P s' i = trioOf P s i := by
+    unfold trioOf
+    simp only
+    have hc : ∀ j, countsOf P.n (s'.getD j []) = countsOf P.n (s.getD j []) :=
+      fun j => countsOf_perm P.n (h j)
+    simp only [hc]
+  rw [hl, ht]
+
+/-- under selfing the swap leaves the joint unchanged, accepted or not -/
+theorem swap_self_joint (f : Trio → ℚ) (P : Ped) (s : PedState) (p ip iq : ℕ) (hp : p < s.length)
+    (hip : ip < (s.getD p []).length) (hiq : iq < (s.getD p []).length) :
+    jointWith f P (swapState s p p ip iq) = jointWith f P s := by
+  obtain ⟨_, h2, h3⟩ := swap_self_perm s p ip iq hp hip hiq
+  apply jointWith_perm
+  intro i
+  by_cases e : i = p
+  · subst e; exact h2
+  · rw [h3 i e]
+
 end MCHap.C18
